@@ -104,6 +104,9 @@ fn panic_message(p: Box<dyn std::any::Any + Send>) -> String {
 
 /// Run one case with panics turned into violations.
 pub fn run_guarded(engine: &mut dyn Engine, prop: &str, case: &Value) -> Outcome {
+    // the hasher the whole case runs under (store, reference trie, proof checks, decoder)
+    let hm = case.pointer("/cfg/hasher").or_else(|| case.pointer("/hist/cfg/hasher")).and_then(|v| v.as_u64()).unwrap_or(0);
+    crate::driver::set_hasher_mode(hm as u8);
     let r = std::panic::catch_unwind(std::panic::AssertUnwindSafe(|| engine.run(prop, case)));
     match r {
         Ok(o) => o,
